@@ -4,7 +4,7 @@
    `next_midnight t` the midnight that follows it.  `open` is the list of open check-ins
    (time_log_t::time_xacts), `clock_out db open o` the effect of one check-out line with
    (db = true) or without --day-break, `run`/`journal` the effect of a whole file. *)
-From LedgerV Require Import Base.Prelude Model.Timelog Proofs.TimelogProofs.
+From LedgerV Require Import Base.Prelude Model.Timelog Proofs.TimelogProofs Gen.ClockAccount.
 Local Open Scope Z_scope.
 
 (* ---- one session: exactly t_out - t_in seconds, on the check-in day, to the check-in account;
@@ -162,6 +162,13 @@ Proof.
   eexists. split; [discriminate|]. split; [vm_compute; reflexivity|]. split; reflexivity.
 Qed.
 Print Assumptions checkout_naming_other_account_closes_session.
+
+(* ---- the tie of `tx_acct` to the text: both time-clock directives of src/textual.cc resolve the
+   account written on their line with the same expression, top_account() (regenerated table) ---- *)
+Theorem clock_lines_resolve_alike :
+  src_clock_in_root = RootTopAccount /\ src_clock_out_root = RootTopAccount.
+Proof. exact clock_lines_resolve_alike_lemma. Qed.
+Print Assumptions clock_lines_resolve_alike.
 
 (* ---- non-vacuity: 2020-02-28 23:00:00 .. 2020-03-01 01:00:01 (93601 s) splits as
    3600 + 86400 + 3601 over 28 Feb, 29 Feb and 1 Mar; two interleaved sessions are clean ---- *)
